@@ -170,6 +170,22 @@ fn oracle_opcode(c: &ByteCase, obs: &mut Obs) -> Result<(), Violation> {
         (Some(m), Ok(opc)) => {
             let back: u8 = (*opc).into();
             ensure!(back == b, "asm:opcode-u8", "u8::from(Opcode::try_from({b:#x})) = {back:#x}");
+            // the opcode enums are `repr(u8)`: the plain cast must give the same byte
+            use essential_asm::opcode as oc;
+            let cast: u8 = match *opc {
+                Opcode::Stack(x) => x as u8,
+                Opcode::Pred(x) => x as u8,
+                Opcode::Alu(x) => x as u8,
+                Opcode::Access(x) => x as u8,
+                Opcode::Crypto(x) => x as u8,
+                Opcode::TotalControlFlow(x) => x as u8,
+                Opcode::Memory(x) => x as u8,
+                Opcode::ParentMemory(x) => x as u8,
+                Opcode::StateRead(x) => x as u8,
+                Opcode::Compute(x) => x as u8,
+            };
+            let _: Option<oc::Stack> = None;
+            ensure!(cast == b, "asm:opcode-cast", "opcode {opc:?} casts to {cast:#x} with `as u8`, the specification says {b:#x}");
             let dbg = format!("{opc:?}");
             ensure!(
                 dbg == format!("{}({})", m.group(), m.name()),
